@@ -58,6 +58,22 @@ func c06Cases() []c06Case {
 		{"instances-in-loop", map[string]string{"p.vuego": `<div v-for="it in items"><template include="c.vuego"><b>I-{{ it }}</b></template></div>`, "c.vuego": `<p><slot>FB</slot></p>`}, d, "I-aI-bI-c"},
 		{"vif-inside-supplied", map[string]string{"p.vuego": `<template include="c.vuego"><b v-if="n">YES</b><b v-else>NO</b></template>`, "c.vuego": `<p><slot>FB</slot></p>`}, d, "YES"},
 	}
+	cases = append(cases,
+		// a <slot> inside supplied content belongs to the includer: at page level there is nothing to fill it, so its fallback shows (and the
+		// render terminates: the pinned code recursed into the same content until the process died)
+		c06Case{"slot-inside-supplied-content-top-level", map[string]string{"p.vuego": `<template include="c.vuego"><slot>PAGE-FB</slot></template>`, "c.vuego": `<div><slot>FB</slot></div>`}, d, "PAGE-FB"},
+		c06Case{"slot-inside-supplied-content-empty", map[string]string{"p.vuego": `<template include="c.vuego"><b>x</b><slot></slot></template>`, "c.vuego": `<div><slot>FB</slot></div>`}, d, "x"},
+		// slot forwarding: a wrapper hands the content it was given on to the component it wraps
+		c06Case{"slot-forwarded-through-wrapper", map[string]string{"p.vuego": `<template include="wrap.vuego"><b>FROM-PAGE-{{ name }}</b></template>`,
+			"wrap.vuego": `<section><template include="inner.vuego"><slot>WRAP-FB</slot></template></section>`, "inner.vuego": `<p><slot>INNER-FB</slot></p>`}, d, "FROM-PAGE-NAME"},
+		c06Case{"slot-forwarded-wrapper-unfilled", map[string]string{"p.vuego": `<template include="wrap.vuego"></template>`,
+			"wrap.vuego": `<section><template include="inner.vuego"><slot>WRAP-FB</slot></template></section>`, "inner.vuego": `<p><slot>INNER-FB</slot></p>`}, d, "WRAP-FB"},
+		c06Case{"named-slot-forwarded", map[string]string{"p.vuego": `<template include="wrap.vuego"><template #head>H-{{ other }}</template></template>`,
+			"wrap.vuego": `<section><template include="inner.vuego"><template #title><slot name="head">WRAP-HEAD-FB</slot></template></template></section>`, "inner.vuego": `<h1><slot name="title">T-FB</slot></h1>`}, d, "H-OTHER"},
+		// nested instance with nothing supplied keeps its own fallback although the outer instance was given content for the same slot name
+		c06Case{"nested-unsupplied-keeps-fallback", map[string]string{"p.vuego": `<template include="panel.vuego"><i>hello</i></template>`,
+			"panel.vuego": `<div><template include="badge.vuego"></template><slot>PANEL-FB</slot></div>`, "badge.vuego": `<span><slot>new</slot></span>`}, d, "newhello"},
+	)
 	return append(cases, c06Generated()...)
 }
 
